@@ -345,8 +345,10 @@ def chain_meta(rnd, spec, width=None):
     outer.project = emb
     emb.metamodule = outer
     width = width or rnd.randrange(2, 5)
-    kinds = ["bool", "enum", "range", "range"]
+    kinds = ["bool", "enum", "range", "negrange"]
     rnd.shuffle(kinds)
+    if width < 4 and "negrange" not in kinds[:width]:       # (always one chain onto a range with a negative minimum)
+        kinds[rnd.randrange(width)] = "negrange"
     for j in range(width):
         inner = api.m.MetaModule()
         ie = api.Project()
@@ -355,7 +357,7 @@ def chain_meta(rnd, spec, width=None):
         want = kinds[j % len(kinds)]
         for _ in range(40):
             t = rnd.choice(simple)
-            cands = [k for k, c in enumerate(spec[t]["ctls"]) if c["kind"] == want]
+            cands = [k for k, c in enumerate(spec[t]["ctls"]) if (c["kind"] == want if want != "negrange" else (c["kind"] == "range" and c["min"] < 0))]
             if cands:
                 break
         tm = ie.new_module(cl[t])
@@ -381,7 +383,9 @@ def chain_meta(rnd, spec, width=None):
         c = spec[tm.mtype]["ctls"][inner.mappings.values[0].controller]
         name = "user_defined_%d" % (j + 1)
         try:
-            if c["kind"] == "range":
+            if c["kind"] == "range" and c["min"] < 0:
+                outer.set_raw(name, rnd.choice([0, 1, c["max"] - c["min"], -c["min"] - 20, rnd.randrange(c["max"] - c["min"] + 1)]))
+            elif c["kind"] == "range":
                 outer.set_raw(name, rnd.choice([300, 2, c["max"] - c["min"], (c["max"] - c["min"]) // 2]) if c["max"] - c["min"] >= 300 else rnd.randrange(c["max"] - c["min"] + 1))
             elif c["kind"] == "enum":
                 outer.set_raw(name, rnd.choice([v for _, v in c["members"]]))
